@@ -14,12 +14,18 @@ def declared_names(shapes):
             names.append(c[1])
         if isinstance(c, tuple) and len(c) == 3 and c[0] == 'declare-datatype' and isinstance(c[1], str):
             names.append(c[1])
+        if isinstance(c, tuple) and len(c) == 3 and c[0] == 'define-funs-rec' and isinstance(c[1], tuple):
+            names += [d_[0] for d_ in c[1] if isinstance(d_, tuple) and d_ and isinstance(d_[0], str)]
         # constructors and selectors are declared symbols too
+        def ctors_of(dt):
+            if isinstance(dt, tuple) and len(dt) == 3 and dt[0] == 'par' and isinstance(dt[2], tuple):
+                return list(dt[2])
+            return list(dt) if isinstance(dt, tuple) else []
         cons = []
-        if isinstance(c, tuple) and len(c) == 3 and c[0] == 'declare-datatype' and isinstance(c[2], tuple):
-            cons = list(c[2])
+        if isinstance(c, tuple) and len(c) == 3 and c[0] == 'declare-datatype':
+            cons = ctors_of(c[2])
         if isinstance(c, tuple) and len(c) == 3 and c[0] == 'declare-datatypes' and isinstance(c[2], tuple):
-            cons = [k for dt in c[2] if isinstance(dt, tuple) for k in dt]
+            cons = [k for dt in c[2] for k in ctors_of(dt)]
         for k in cons:
             if isinstance(k, tuple) and k and isinstance(k[0], str):
                 names.append(k[0])
@@ -126,6 +132,13 @@ def run(ctx):
     extra_inputs.append('(set-logic ALL)\n(declare-const ; the counter\n x Int)\n(declare-fun ; c\n f (Int) Int)\n(declare-const "ab" Int)\n(assert (> x (f 0)))\n(check-sat)\n')
     extra_inputs.append('(set-logic ALL)\n(declare-datatypes ((T 0)) (((_v) (mk (s_suffix Int)))))\n(declare-const v (_ BitVec 8))\n(declare-const s String)\n'
                         '(declare-const ab_c Int)\n(assert (= v (bvadd v #x01)))\n(assert (str.contains s "ab"))\n(assert (> ab_c (s_suffix _v)))\n(check-sat)\n')
+    # names that exist as recursive functions or as constructors/selectors of a parametric datatype; a string literal as declared name;
+    # a comment as operand (F54)
+    extra_inputs.append('(set-logic ALL)\n(define-fun-rec _x ((n Int)) Int n)\n(define-funs-rec ((s_prefix ((n Int)) String) (_y ((m Int)) Int)) ("a" m))\n'
+                        '(declare-datatypes ((P 1)) ((par (X) ((_z (s_suffix X))))))\n(declare-datatype Q (par (Y) ((_w (fw Y)))))\n'
+                        '(declare-const x (_ BitVec 8))\n(declare-const y (_ BitVec 8))\n(declare-const z (_ BitVec 4))\n(declare-const w (_ BitVec 4))\n(declare-const s String)\n'
+                        '(assert (= x (bvadd x y)))\n(assert (= z (bvadd z w)))\n(assert (str.contains s "b"))\n(check-sat)\n')
+    extra_inputs.append('(set-logic ALL)\n(declare-const "x" (_ BitVec 8))\n(declare-const t String)\n(assert (str.contains ; c\n t "q"))\n(assert (= "x" #x00))\n(check-sat)\n')
     import instances
     targeted = []
     for cls in instances.classes():
